@@ -1,3 +1,10 @@
+(* The T-norm / S-norm laws of the 16 norms of fuzzylite/norm.py, proved over R on the documented formulas
+   (Spec/SpecNorm.v).  Properties/C04.v transports them to the generated kernels through NormR.<N>_eq.
+
+   Plan: the seven T-norms are proved law by law; the seven dual S-norms get their laws from the
+   De Morgan duality S a b = 1 - T (1-a) (1-b) through the generic lemma [dual_laws];
+   NormalizedSum coincides with BoundedSum; UnboundedSum is plain addition (not bounded, so only the
+   monoid laws and monotonicity). *)
 From Coq Require Import Reals Lra Lia Bool Psatz.
 From VF Require Import Num NumR GenNorm SpecNorm NormR.
 Local Open Scope R_scope.
@@ -8,7 +15,10 @@ Ltac splitm := unfold Rmin, Rmax in *; repeat match goal with
   | |- context [Req_EM_T ?a ?b] => noif a; noif b; destruct (Req_EM_T a b)
   | |- context [Rlt_dec ?a ?b] => noif a; noif b; destruct (Rlt_dec a b)
   end.
-Ltac crush := intros; unspec; splitm; try lra; try nra.
+Ltac crush := intros; unspec; splitm; try lra; try (timeout 30 nra).
+
+(* ------------------------------------------------------------------------------------------------ *)
+(* 0. The laws                                                                                      *)
 
 Definition T_range (T : R -> R -> R) := forall a b, unit a -> unit b -> unit (T a b).
 Definition T_comm (T : R -> R -> R) := forall a b, unit a -> unit b -> T a b = T b a.
@@ -18,15 +28,522 @@ Definition T_id1 (T : R -> R -> R) := forall a, unit a -> T a 1 = a.
 Definition T_ann0 (T : R -> R -> R) := forall a, unit a -> T a 0 = 0.
 Definition T_le_min (T : R -> R -> R) := forall a b, unit a -> unit b -> T a b <= Rmin a b.
 
+Definition S_range (S : R -> R -> R) := forall a b, unit a -> unit b -> unit (S a b).
+Definition S_comm (S : R -> R -> R) := forall a b, unit a -> unit b -> S a b = S b a.
+Definition S_mono (S : R -> R -> R) := forall a b c, unit a -> unit b -> unit c -> b <= c -> S a b <= S a c.
+Definition S_assoc (S : R -> R -> R) := forall a b c, unit a -> unit b -> unit c -> S (S a b) c = S a (S b c).
+Definition S_id0 (S : R -> R -> R) := forall a, unit a -> S a 0 = a.
+Definition S_ann1 (S : R -> R -> R) := forall a, unit a -> S a 1 = 1.
+Definition S_ge_max (S : R -> R -> R) := forall a b, unit a -> unit b -> Rmax a b <= S a b.
+
+Definition tnorm_laws (T : R -> R -> R) :=
+  T_range T /\ T_comm T /\ T_mono T /\ T_assoc T /\ T_id1 T /\ T_ann0 T /\ T_le_min T.
+Definition snorm_laws (S : R -> R -> R) :=
+  S_range S /\ S_comm S /\ S_mono S /\ S_assoc S /\ S_id0 S /\ S_ann1 S /\ S_ge_max S.
+
+(* De Morgan duality w.r.t. the standard negation 1 - x, on the unit square *)
+Definition dual (S T : R -> R -> R) := forall a b, unit a -> unit b -> S a b = 1 - T (1 - a) (1 - b).
+
+Ltac unlaws := unfold tnorm_laws, snorm_laws, T_range, T_comm, T_mono, T_assoc, T_id1, T_ann0, T_le_min,
+  S_range, S_comm, S_mono, S_assoc, S_id0, S_ann1, S_ge_max, dual in *.
+
+(* ------------------------------------------------------------------------------------------------ *)
+(* 1. Generic consequences                                                                          *)
+
+Lemma unit_0 : unit 0. Proof. unfold unit; lra. Qed.
+Lemma unit_1 : unit 1. Proof. unfold unit; lra. Qed.
+Lemma unit_neg x : unit x -> unit (1 - x). Proof. unfold unit; lra. Qed.
+
+(* transport along pointwise equality (no functional extensionality needed) *)
+Lemma tnorm_laws_ext (T T' : R -> R -> R) :
+  (forall a b, T a b = T' a b) -> tnorm_laws T -> tnorm_laws T'.
+Proof.
+  intros E (Hr & Hc & Hm & Ha & Hi & Hz & Hl). unlaws. refine (conj _ (conj _ (conj _ (conj _ (conj _ (conj _ _)))))).
+  - intros a b Ua Ub. rewrite <- E. apply (Hr a b Ua Ub).
+  - intros a b Ua Ub. rewrite <- !E. apply (Hc a b Ua Ub).
+  - intros a b c Ua Ub Uc Hbc. rewrite <- !E. apply (Hm a b c Ua Ub Uc Hbc).
+  - intros a b c Ua Ub Uc. rewrite <- !E. apply (Ha a b c Ua Ub Uc).
+  - intros a Ua. rewrite <- E. apply (Hi a Ua).
+  - intros a Ua. rewrite <- E. apply (Hz a Ua).
+  - intros a b Ua Ub. rewrite <- E. apply (Hl a b Ua Ub).
+Qed.
+
+Lemma snorm_laws_ext (S S' : R -> R -> R) :
+  (forall a b, S a b = S' a b) -> snorm_laws S -> snorm_laws S'.
+Proof.
+  intros E (Hr & Hc & Hm & Ha & Hi & Hz & Hl). unlaws. refine (conj _ (conj _ (conj _ (conj _ (conj _ (conj _ _)))))).
+  - intros a b Ua Ub. rewrite <- E. apply (Hr a b Ua Ub).
+  - intros a b Ua Ub. rewrite <- !E. apply (Hc a b Ua Ub).
+  - intros a b c Ua Ub Uc Hbc. rewrite <- !E. apply (Hm a b c Ua Ub Uc Hbc).
+  - intros a b c Ua Ub Uc. rewrite <- !E. apply (Ha a b c Ua Ub Uc).
+  - intros a Ua. rewrite <- E. apply (Hi a Ua).
+  - intros a Ua. rewrite <- E. apply (Hz a Ua).
+  - intros a b Ua Ub. rewrite <- E. apply (Hl a b Ua Ub).
+Qed.
+
+(* the same, when the two functions are only known to agree on the unit square *)
+Lemma snorm_laws_ext_unit (S S' : R -> R -> R) :
+  (forall a b, unit a -> unit b -> S a b = S' a b) -> snorm_laws S -> snorm_laws S'.
+Proof.
+  intros E (Hr & Hc & Hm & Ha & Hi & Hz & Hl). unlaws. refine (conj _ (conj _ (conj _ (conj _ (conj _ (conj _ _)))))).
+  - intros a b Ua Ub. rewrite <- (E a b Ua Ub). apply (Hr a b Ua Ub).
+  - intros a b Ua Ub. rewrite <- (E a b Ua Ub), <- (E b a Ub Ua). apply (Hc a b Ua Ub).
+  - intros a b c Ua Ub Uc Hbc. rewrite <- (E a b Ua Ub), <- (E a c Ua Uc). apply (Hm a b c Ua Ub Uc Hbc).
+  - intros a b c Ua Ub Uc.
+    rewrite <- (E a b Ua Ub), <- (E b c Ub Uc).
+    rewrite <- (E (S a b) c (Hr a b Ua Ub) Uc), <- (E a (S b c) Ua (Hr b c Ub Uc)).
+    apply (Ha a b c Ua Ub Uc).
+  - intros a Ua. rewrite <- (E a 0 Ua unit_0). apply (Hi a Ua).
+  - intros a Ua. rewrite <- (E a 1 Ua unit_1). apply (Hz a Ua).
+  - intros a b Ua Ub. rewrite <- (E a b Ua Ub). apply (Hl a b Ua Ub).
+Qed.
+
+Lemma dual_ext (S S' T T' : R -> R -> R) :
+  (forall a b, S a b = S' a b) -> (forall a b, T a b = T' a b) -> dual S T -> dual S' T'.
+Proof. intros ES ET D a b Ua Ub. rewrite <- ES, <- ET. exact (D a b Ua Ub). Qed.
+
+(* monotone in the first argument, and jointly *)
+Lemma T_mono_l T : T_comm T -> T_mono T ->
+  forall a b c, unit a -> unit b -> unit c -> a <= b -> T a c <= T b c.
+Proof.
+  intros Hc Hm a b c Ua Ub Uc Hab. rewrite (Hc a c Ua Uc), (Hc b c Ub Uc). apply (Hm c a b Uc Ua Ub Hab).
+Qed.
+Lemma T_mono2 T : T_comm T -> T_mono T ->
+  forall a a' b b', unit a -> unit a' -> unit b -> unit b' -> a <= a' -> b <= b' -> T a b <= T a' b'.
+Proof.
+  intros Hc Hm a a' b b' Ua Ua' Ub Ub' Haa Hbb.
+  apply Rle_trans with (T a b'); [apply (Hm a b b' Ua Ub Ub' Hbb) | apply (T_mono_l T Hc Hm a a' b' Ua Ua' Ub' Haa)].
+Qed.
+Lemma S_mono_l S : S_comm S -> S_mono S ->
+  forall a b c, unit a -> unit b -> unit c -> a <= b -> S a c <= S b c.
+Proof. exact (T_mono_l S). Qed.
+Lemma S_mono2 S : S_comm S -> S_mono S ->
+  forall a a' b b', unit a -> unit a' -> unit b -> unit b' -> a <= a' -> b <= b' -> S a b <= S a' b'.
+Proof. exact (T_mono2 S). Qed.
+
+Lemma tnorm_mono2 T : tnorm_laws T ->
+  forall a a' b b', unit a -> unit a' -> unit b -> unit b' -> a <= a' -> b <= b' -> T a b <= T a' b'.
+Proof. intros (_ & Hc & Hm & _). exact (T_mono2 T Hc Hm). Qed.
+Lemma snorm_mono2 S : snorm_laws S ->
+  forall a a' b b', unit a -> unit a' -> unit b -> unit b' -> a <= a' -> b <= b' -> S a b <= S a' b'.
+Proof. intros (_ & Hc & Hm & _). exact (S_mono2 S Hc Hm). Qed.
+(* left-handed unit / annihilator *)
+Lemma tnorm_id1_l T : tnorm_laws T -> forall a, unit a -> T 1 a = a.
+Proof. intros (_ & Hc & _ & _ & Hi & _) a Ua. rewrite (Hc 1 a unit_1 Ua). exact (Hi a Ua). Qed.
+Lemma tnorm_ann0_l T : tnorm_laws T -> forall a, unit a -> T 0 a = 0.
+Proof. intros (_ & Hc & _ & _ & _ & Hz & _) a Ua. rewrite (Hc 0 a unit_0 Ua). exact (Hz a Ua). Qed.
+Lemma snorm_id0_l S : snorm_laws S -> forall a, unit a -> S 0 a = a.
+Proof. intros (_ & Hc & _ & _ & Hi & _) a Ua. rewrite (Hc 0 a unit_0 Ua). exact (Hi a Ua). Qed.
+Lemma snorm_ann1_l S : snorm_laws S -> forall a, unit a -> S 1 a = 1.
+Proof. intros (_ & Hc & _ & _ & _ & Hz & _) a Ua. rewrite (Hc 1 a unit_1 Ua). exact (Hz a Ua). Qed.
+
+(* The S-norm laws of the De Morgan dual of a T-norm *)
+Lemma dual_laws S T : dual S T -> tnorm_laws T -> snorm_laws S.
+Proof.
+  intros D (Hr & Hc & Hm & Ha & Hi & Hz & Hl).
+  assert (Sr : S_range S).
+  { intros a b Ua Ub. rewrite (D a b Ua Ub).
+    apply unit_neg. apply Hr; apply unit_neg; assumption. }
+  unfold snorm_laws. split; [exact Sr|]. refine (conj _ (conj _ (conj _ (conj _ (conj _ _))))).
+  - (* comm *) intros a b Ua Ub. rewrite (D a b Ua Ub), (D b a Ub Ua).
+    rewrite (Hc (1 - a) (1 - b) (unit_neg a Ua) (unit_neg b Ub)). reflexivity.
+  - (* mono *) intros a b c Ua Ub Uc Hbc. rewrite (D a b Ua Ub), (D a c Ua Uc).
+    assert (Hcb : 1 - c <= 1 - b) by lra.
+    pose proof (Hm (1 - a) (1 - c) (1 - b) (unit_neg a Ua) (unit_neg c Uc) (unit_neg b Ub) Hcb) as Hle. lra.
+  - (* assoc *) intros a b c Ua Ub Uc.
+    rewrite (D (S a b) c (Sr a b Ua Ub) Uc), (D a (S b c) Ua (Sr b c Ub Uc)).
+    rewrite (D a b Ua Ub), (D b c Ub Uc).
+    replace (1 - (1 - T (1 - a) (1 - b))) with (T (1 - a) (1 - b)) by ring.
+    replace (1 - (1 - T (1 - b) (1 - c))) with (T (1 - b) (1 - c)) by ring.
+    rewrite (Ha (1 - a) (1 - b) (1 - c) (unit_neg a Ua) (unit_neg b Ub) (unit_neg c Uc)). reflexivity.
+  - (* id0 *) intros a Ua. rewrite (D a 0 Ua unit_0).
+    replace (1 - 0) with 1 by ring. rewrite (Hi (1 - a) (unit_neg a Ua)). ring.
+  - (* ann1 *) intros a Ua. rewrite (D a 1 Ua unit_1).
+    replace (1 - 1) with 0 by ring. rewrite (Hz (1 - a) (unit_neg a Ua)). ring.
+  - (* ge_max *) intros a b Ua Ub. rewrite (D a b Ua Ub).
+    pose proof (Hl (1 - a) (1 - b) (unit_neg a Ua) (unit_neg b Ub)) as Hle.
+    revert Hle. unfold Rmin, Rmax. destruct (Rle_dec (1 - a) (1 - b)); destruct (Rle_dec a b); lra.
+Qed.
+
+(* ------------------------------------------------------------------------------------------------ *)
+(* 2. Division helpers                                                                              *)
+
+Lemma div_mul_cancel x d : d <> 0 -> x / d * d = x.
+Proof. intros Hd. field. exact Hd. Qed.
+Lemma div_ge0 x d : 0 <= x -> 0 < d -> 0 <= x / d.
+Proof. intros Hx Hd. apply Rmult_le_pos; [exact Hx | left; apply Rinv_0_lt_compat; exact Hd]. Qed.
+Lemma div_le_r x y d : 0 < d -> x <= y * d -> x / d <= y.
+Proof.
+  intros Hd Hxy. apply Rmult_le_reg_r with d; [exact Hd|].
+  rewrite div_mul_cancel by lra. exact Hxy.
+Qed.
+Lemma div_le_div x y d e : 0 < d -> 0 < e -> x * e <= y * d -> x / d <= y / e.
+Proof.
+  intros Hd He Hxy. apply div_le_r; [exact Hd|].
+  apply Rmult_le_reg_r with e; [exact He|].
+  replace (y / e * d * e) with (y * d) by (field; lra). exact Hxy.
+Qed.
+
+(* ------------------------------------------------------------------------------------------------ *)
+(* 3. T-norms                                                                                       *)
+
+(* ---- AlgebraicProduct *)
 Lemma AP_range : T_range AlgebraicProduct. Proof. unfold T_range. crush. Qed.
+Lemma AP_comm : T_comm AlgebraicProduct. Proof. unfold T_comm. crush. Qed.
+Lemma AP_mono : T_mono AlgebraicProduct. Proof. unfold T_mono. crush. Qed.
 Lemma AP_assoc : T_assoc AlgebraicProduct. Proof. unfold T_assoc. crush. Qed.
+Lemma AP_id1 : T_id1 AlgebraicProduct. Proof. unfold T_id1. crush. Qed.
+Lemma AP_ann0 : T_ann0 AlgebraicProduct. Proof. unfold T_ann0. crush. Qed.
+Lemma AP_le_min : T_le_min AlgebraicProduct. Proof. unfold T_le_min. crush. Qed.
+Theorem AlgebraicProduct_laws : tnorm_laws AlgebraicProduct.
+Proof. exact (conj AP_range (conj AP_comm (conj AP_mono (conj AP_assoc (conj AP_id1 (conj AP_ann0 AP_le_min)))))). Qed.
+
+(* ---- BoundedDifference *)
 Lemma BD_range : T_range BoundedDifference. Proof. unfold T_range. crush. Qed.
-Lemma BD_assoc : T_assoc BoundedDifference. Proof. unfold T_assoc. crush. Qed.
+Lemma BD_comm : T_comm BoundedDifference. Proof. unfold T_comm. crush. Qed.
 Lemma BD_mono : T_mono BoundedDifference. Proof. unfold T_mono. crush. Qed.
+Lemma BD_assoc : T_assoc BoundedDifference. Proof. unfold T_assoc. crush. Qed.
+Lemma BD_id1 : T_id1 BoundedDifference. Proof. unfold T_id1. crush. Qed.
+Lemma BD_ann0 : T_ann0 BoundedDifference. Proof. unfold T_ann0. crush. Qed.
+Lemma BD_le_min : T_le_min BoundedDifference. Proof. unfold T_le_min. crush. Qed.
+Theorem BoundedDifference_laws : tnorm_laws BoundedDifference.
+Proof. exact (conj BD_range (conj BD_comm (conj BD_mono (conj BD_assoc (conj BD_id1 (conj BD_ann0 BD_le_min)))))). Qed.
+
+(* ---- DrasticProduct *)
 Lemma DP_range : T_range DrasticProduct. Proof. unfold T_range. crush. Qed.
-Lemma DP_assoc : T_assoc DrasticProduct. Proof. unfold T_assoc. Time crush. Qed.
-Lemma DP_mono : T_mono DrasticProduct. Proof. unfold T_mono. Time crush. Qed.
-Lemma NM_assoc : T_assoc NilpotentMinimum. Proof. unfold T_assoc. Time crush. Qed.
-Lemma EP_range : T_range EinsteinProduct. Proof. unfold T_range. intros a b [] []. unspec. 
-  assert (0 < 2 - (a + b - a * b)) by nra. split. apply Rmult_le_pos; [nra|]. left; now apply Rinv_0_lt_compat.
-  apply Rmult_le_reg_r with (2 - (a + b - a * b)); [lra|]. unfold Rdiv. rewrite Rmult_assoc, Rinv_l by lra. nra. Qed.
+Lemma DP_comm : T_comm DrasticProduct. Proof. unfold T_comm. crush. Qed.
+Lemma DP_mono : T_mono DrasticProduct. Proof. unfold T_mono. crush. Qed.
+Lemma DP_assoc : T_assoc DrasticProduct. Proof. unfold T_assoc. crush. Qed.
+Lemma DP_id1 : T_id1 DrasticProduct. Proof. unfold T_id1. crush. Qed.
+Lemma DP_ann0 : T_ann0 DrasticProduct. Proof. unfold T_ann0. crush. Qed.
+Lemma DP_le_min : T_le_min DrasticProduct. Proof. unfold T_le_min. crush. Qed.
+Theorem DrasticProduct_laws : tnorm_laws DrasticProduct.
+Proof. exact (conj DP_range (conj DP_comm (conj DP_mono (conj DP_assoc (conj DP_id1 (conj DP_ann0 DP_le_min)))))). Qed.
+
+(* ---- Minimum *)
+Lemma Min_range : T_range Minimum. Proof. unfold T_range. crush. Qed.
+Lemma Min_comm : T_comm Minimum. Proof. unfold T_comm. crush. Qed.
+Lemma Min_mono : T_mono Minimum. Proof. unfold T_mono. crush. Qed.
+Lemma Min_assoc : T_assoc Minimum. Proof. unfold T_assoc. crush. Qed.
+Lemma Min_id1 : T_id1 Minimum. Proof. unfold T_id1. crush. Qed.
+Lemma Min_ann0 : T_ann0 Minimum. Proof. unfold T_ann0. crush. Qed.
+Lemma Min_le_min : T_le_min Minimum. Proof. unfold T_le_min. crush. Qed.
+Theorem Minimum_laws : tnorm_laws Minimum.
+Proof. exact (conj Min_range (conj Min_comm (conj Min_mono (conj Min_assoc (conj Min_id1 (conj Min_ann0 Min_le_min)))))). Qed.
+
+(* ---- NilpotentMinimum *)
+Lemma NM_range : T_range NilpotentMinimum. Proof. unfold T_range. crush. Qed.
+Lemma NM_comm : T_comm NilpotentMinimum. Proof. unfold T_comm. crush. Qed.
+Lemma NM_mono : T_mono NilpotentMinimum. Proof. unfold T_mono. crush. Qed.
+Lemma NM_assoc : T_assoc NilpotentMinimum. Proof. unfold T_assoc. crush. Qed.
+Lemma NM_id1 : T_id1 NilpotentMinimum. Proof. unfold T_id1. crush. Qed.
+Lemma NM_ann0 : T_ann0 NilpotentMinimum. Proof. unfold T_ann0. crush. Qed.
+Lemma NM_le_min : T_le_min NilpotentMinimum. Proof. unfold T_le_min. crush. Qed.
+Theorem NilpotentMinimum_laws : tnorm_laws NilpotentMinimum.
+Proof. exact (conj NM_range (conj NM_comm (conj NM_mono (conj NM_assoc (conj NM_id1 (conj NM_ann0 NM_le_min)))))). Qed.
+
+(* ---- EinsteinProduct: a b / (2 - (a + b - a b)), denominator = 1 + (1-a)(1-b) >= 1 *)
+Lemma EP_den a b : unit a -> unit b -> 1 <= 2 - (a + b - a * b).
+Proof. unfold unit. intros Ua Ub. nra. Qed.
+
+Lemma EP_range : T_range EinsteinProduct.
+Proof.
+  intros a b Ua Ub. pose proof (EP_den a b Ua Ub) as Hd. unfold EinsteinProduct, unit in *. split.
+  - apply div_ge0; [nra | lra].
+  - apply div_le_r; [lra | nra].
+Qed.
+Lemma EP_comm : T_comm EinsteinProduct.
+Proof. intros a b _ _. unfold EinsteinProduct. f_equal; ring. Qed.
+Lemma EP_mono : T_mono EinsteinProduct.
+Proof.
+  intros a b c Ua Ub Uc Hbc.
+  pose proof (EP_den a b Ua Ub) as Hd1. pose proof (EP_den a c Ua Uc) as Hd2.
+  unfold EinsteinProduct, unit in *. apply div_le_div; [lra | lra |].
+  (* a b (2-a-c+ac) <= a c (2-a-b+ab)  <=>  0 <= a (2-a) (c-b) *)
+  assert (H0 : 0 <= a * (2 - a) * (c - b)) by (apply Rmult_le_pos; [nra | lra]).
+  nra.
+Qed.
+Lemma EP_id1 : T_id1 EinsteinProduct.
+Proof. intros a _. unfold EinsteinProduct. field. lra. Qed.
+Lemma EP_ann0 : T_ann0 EinsteinProduct.
+Proof. intros a _. unfold EinsteinProduct, Rdiv. ring. Qed.
+Lemma EP_le_min : T_le_min EinsteinProduct.
+Proof.
+  intros a b Ua Ub. pose proof (EP_den a b Ua Ub) as Hd. unfold EinsteinProduct, unit in *.
+  apply Rmin_glb; (apply div_le_r; [lra | nra]).
+Qed.
+(* closed form of the triple product: symmetric in a, b, c *)
+Lemma EP_den3 a b c : unit a -> unit b -> unit c ->
+  1 <= 4 - 2 * a - 2 * b - 2 * c + a * b + a * c + b * c.
+Proof.
+  unfold unit. intros Ua Ub Uc.
+  (* = 1 + (1-a)(1-b) + (1-a)(1-c) + (1-b)(1-c) *)
+  assert (0 <= (1 - a) * (1 - b)) by (apply Rmult_le_pos; lra).
+  assert (0 <= (1 - a) * (1 - c)) by (apply Rmult_le_pos; lra).
+  assert (0 <= (1 - b) * (1 - c)) by (apply Rmult_le_pos; lra).
+  lra.
+Qed.
+Lemma EP_triple_l a b c : unit a -> unit b -> unit c ->
+  EinsteinProduct (EinsteinProduct a b) c = a * b * c / (4 - 2 * a - 2 * b - 2 * c + a * b + a * c + b * c).
+Proof.
+  intros Ua Ub Uc. pose proof (EP_den a b Ua Ub) as Hd. pose proof (EP_den3 a b c Ua Ub Uc) as Hd3.
+  pose proof (EP_den (EinsteinProduct a b) c (EP_range a b Ua Ub) Uc) as Hd'.
+  unfold EinsteinProduct in *.
+  set (d := 2 - (a + b - a * b)) in *.
+  assert (Ed : 2 - (a * b / d + c - a * b / d * c) = (4 - 2 * a - 2 * b - 2 * c + a * b + a * c + b * c) / d).
+  { unfold d. field. fold d. lra. }
+  rewrite Ed. field. split; [lra | fold d; lra].
+Qed.
+Lemma EP_assoc : T_assoc EinsteinProduct.
+Proof.
+  intros a b c Ua Ub Uc.
+  rewrite (EP_triple_l a b c Ua Ub Uc).
+  rewrite (EP_comm a (EinsteinProduct b c) Ua (EP_range b c Ub Uc)).
+  rewrite (EP_triple_l b c a Ub Uc Ua).
+  f_equal; ring.
+Qed.
+Theorem EinsteinProduct_laws : tnorm_laws EinsteinProduct.
+Proof. exact (conj EP_range (conj EP_comm (conj EP_mono (conj EP_assoc (conj EP_id1 (conj EP_ann0 EP_le_min)))))). Qed.
+
+(* ---- HamacherProduct: 0 if a + b = 0, else a b / (a + b - a b) *)
+Lemma HP_den a b : unit a -> unit b -> a + b <> 0 -> 0 < a + b - a * b.
+Proof.
+  unfold unit. intros Ua Ub Hab.
+  destruct (Req_dec a 0) as [Ea | Na].
+  - subst a. lra.
+  - assert (0 <= b * (1 - a)) by (apply Rmult_le_pos; lra). lra.
+Qed.
+Lemma HP_0_l y : HamacherProduct 0 y = 0.
+Proof. unfold HamacherProduct. destruct (Req_EM_T (0 + y) 0); [reflexivity | unfold Rdiv; ring]. Qed.
+Lemma HP_0_r x : HamacherProduct x 0 = 0.
+Proof. unfold HamacherProduct. destruct (Req_EM_T (x + 0) 0); [reflexivity | unfold Rdiv; ring]. Qed.
+Lemma HP_pos a b : 0 < a <= 1 -> 0 < b <= 1 ->
+  HamacherProduct a b = a * b / (a + b - a * b) /\ 0 < a + b - a * b /\ 0 < HamacherProduct a b <= 1.
+Proof.
+  intros Pa Pb.
+  assert (Hd : 0 < a + b - a * b) by (apply HP_den; unfold unit; lra).
+  assert (E : HamacherProduct a b = a * b / (a + b - a * b)).
+  { unfold HamacherProduct. destruct (Req_EM_T (a + b) 0); [lra | reflexivity]. }
+  split; [exact E|]. split; [exact Hd|]. rewrite E. split.
+  - apply Rmult_lt_0_compat; [nra | apply Rinv_0_lt_compat; exact Hd].
+  - apply div_le_r; [exact Hd|].
+    assert (0 <= a * (1 - b)) by (apply Rmult_le_pos; lra).
+    assert (0 <= b * (1 - a)) by (apply Rmult_le_pos; lra). lra.
+Qed.
+
+Lemma HP_range : T_range HamacherProduct.
+Proof.
+  intros a b Ua Ub. unfold HamacherProduct. destruct (Req_EM_T (a + b) 0) as [E | N].
+  - unfold unit; lra.
+  - pose proof (HP_den a b Ua Ub N) as Hd. unfold unit in *. split.
+    + apply div_ge0; [nra | exact Hd].
+    + apply div_le_r; [exact Hd|].
+      assert (0 <= a * (1 - b)) by (apply Rmult_le_pos; lra).
+      assert (0 <= b * (1 - a)) by (apply Rmult_le_pos; lra). lra.
+Qed.
+Lemma HP_comm : T_comm HamacherProduct.
+Proof.
+  intros a b _ _. unfold HamacherProduct.
+  destruct (Req_EM_T (a + b) 0) as [E | N]; destruct (Req_EM_T (b + a) 0) as [E' | N']; try lra.
+  f_equal; ring.
+Qed.
+Lemma HP_mono : T_mono HamacherProduct.
+Proof.
+  intros a b c Ua Ub Uc Hbc.
+  pose proof (HP_range a c Ua Uc) as Hr. unfold HamacherProduct in *.
+  destruct (Req_EM_T (a + b) 0) as [E | N].
+  - unfold unit in Hr; lra.
+  - destruct (Req_EM_T (a + c) 0) as [E' | N']; [unfold unit in *; lra|].
+    pose proof (HP_den a b Ua Ub N) as Hd1. pose proof (HP_den a c Ua Uc N') as Hd2.
+    unfold unit in *. apply div_le_div; [exact Hd1 | exact Hd2 |].
+    (* a b (a+c-ac) <= a c (a+b-ab)  <=>  a^2 b <= a^2 c *)
+    assert (H0 : 0 <= a * a * (c - b)) by (apply Rmult_le_pos; [nra | lra]).
+    nra.
+Qed.
+Lemma HP_id1 : T_id1 HamacherProduct.
+Proof.
+  intros a Ua. unfold HamacherProduct, unit in *.
+  destruct (Req_EM_T (a + 1) 0) as [E | N]; [lra|]. field. lra.
+Qed.
+Lemma HP_ann0 : T_ann0 HamacherProduct.
+Proof. intros a _. apply HP_0_r. Qed.
+Lemma HP_le_min : T_le_min HamacherProduct.
+Proof.
+  intros a b Ua Ub. unfold HamacherProduct.
+  destruct (Req_EM_T (a + b) 0) as [E | N].
+  - unfold unit in *. apply Rmin_glb; lra.
+  - pose proof (HP_den a b Ua Ub N) as Hd. unfold unit in *.
+    apply Rmin_glb; apply div_le_r; try exact Hd.
+    + (* a b <= a (a+b-ab) <=> 0 <= a * a * (1-b) *)
+      assert (0 <= a * a * (1 - b)) by (apply Rmult_le_pos; [nra | lra]). nra.
+    + assert (0 <= b * b * (1 - a)) by (apply Rmult_le_pos; [nra | lra]). nra.
+Qed.
+Lemma HP_triple_l a b c : 0 < a <= 1 -> 0 < b <= 1 -> 0 < c <= 1 ->
+  HamacherProduct (HamacherProduct a b) c = a * b * c / (a * b + a * c + b * c - 2 * a * b * c).
+Proof.
+  intros Pa Pb Pc.
+  destruct (HP_pos a b Pa Pb) as (E & Hd & Px).
+  destruct (HP_pos (HamacherProduct a b) c Px Pc) as (E' & Hd' & _).
+  rewrite E'. rewrite E in *.
+  set (d := a + b - a * b) in *.
+  assert (Ed : a * b / d + c - a * b / d * c = (a * b + a * c + b * c - 2 * a * b * c) / d).
+  { unfold d. field. fold d. lra. }
+  rewrite Ed in *.
+  assert (Hn : 0 < a * b + a * c + b * c - 2 * a * b * c).
+  { replace (a * b + a * c + b * c - 2 * a * b * c)
+      with ((a * b + a * c + b * c - 2 * a * b * c) / d * d) by (field; lra).
+    apply Rmult_lt_0_compat; assumption. }
+  field. repeat split; lra.
+Qed.
+Lemma HP_assoc : T_assoc HamacherProduct.
+Proof.
+  intros a b c Ua Ub Uc.
+  destruct (Req_dec a 0) as [Ea | Na]; [subst a; repeat (rewrite HP_0_l || rewrite HP_0_r); reflexivity|].
+  destruct (Req_dec b 0) as [Eb | Nb]; [subst b; repeat (rewrite HP_0_l || rewrite HP_0_r); reflexivity|].
+  destruct (Req_dec c 0) as [Ec | Nc]; [subst c; repeat (rewrite HP_0_l || rewrite HP_0_r); reflexivity|].
+  assert (Pa : 0 < a <= 1) by (unfold unit in *; lra).
+  assert (Pb : 0 < b <= 1) by (unfold unit in *; lra).
+  assert (Pc : 0 < c <= 1) by (unfold unit in *; lra).
+  rewrite (HP_triple_l a b c Pa Pb Pc).
+  rewrite (HP_comm a (HamacherProduct b c) Ua (HP_range b c Ub Uc)).
+  rewrite (HP_triple_l b c a Pb Pc Pa).
+  f_equal; ring.
+Qed.
+Theorem HamacherProduct_laws : tnorm_laws HamacherProduct.
+Proof. exact (conj HP_range (conj HP_comm (conj HP_mono (conj HP_assoc (conj HP_id1 (conj HP_ann0 HP_le_min)))))). Qed.
+
+(* ------------------------------------------------------------------------------------------------ *)
+(* 4. Duality S a b = 1 - T (1-a) (1-b) for the seven same-family pairs                             *)
+
+Lemma dual_Algebraic : dual AlgebraicSum AlgebraicProduct.
+Proof. intros a b _ _. unfold AlgebraicSum, AlgebraicProduct. ring. Qed.
+Lemma dual_Bounded : dual BoundedSum BoundedDifference.
+Proof. unfold dual. crush. Qed.
+Lemma dual_Drastic : dual DrasticSum DrasticProduct.
+Proof. unfold dual. crush. Qed.
+Lemma dual_Einstein : dual EinsteinSum EinsteinProduct.
+Proof.
+  intros a b Ua Ub. pose proof (EP_den (1 - a) (1 - b) (unit_neg a Ua) (unit_neg b Ub)) as Hd.
+  unfold EinsteinSum, EinsteinProduct, unit in *.
+  assert (Hd' : 0 < 1 + a * b) by nra.
+  field. repeat split; lra.
+Qed.
+Lemma dual_Hamacher : dual HamacherSum HamacherProduct.
+Proof.
+  intros a b Ua Ub. unfold HamacherSum, HamacherProduct.
+  destruct (Req_EM_T (a * b) 1) as [E | N]; destruct (Req_EM_T (1 - a + (1 - b)) 0) as [E' | N'].
+  - ring.
+  - exfalso. unfold unit in *. apply N'. nra.
+  - exfalso. unfold unit in *. apply N. nra.
+  - pose proof (HP_den (1 - a) (1 - b) (unit_neg a Ua) (unit_neg b Ub) N') as Hd.
+    assert (Hd' : 1 - a * b <> 0) by lra.
+    field. repeat split; lra.
+Qed.
+Lemma dual_MaxMin : dual Maximum Minimum.
+Proof. unfold dual. crush. Qed.
+Lemma dual_Nilpotent : dual NilpotentMaximum NilpotentMinimum.
+Proof. unfold dual. crush. Qed.
+
+(* ------------------------------------------------------------------------------------------------ *)
+(* 5. S-norms                                                                                       *)
+
+Theorem AlgebraicSum_laws : snorm_laws AlgebraicSum.
+Proof. exact (dual_laws _ _ dual_Algebraic AlgebraicProduct_laws). Qed.
+Theorem BoundedSum_laws : snorm_laws BoundedSum.
+Proof. exact (dual_laws _ _ dual_Bounded BoundedDifference_laws). Qed.
+Theorem DrasticSum_laws : snorm_laws DrasticSum.
+Proof. exact (dual_laws _ _ dual_Drastic DrasticProduct_laws). Qed.
+Theorem EinsteinSum_laws : snorm_laws EinsteinSum.
+Proof. exact (dual_laws _ _ dual_Einstein EinsteinProduct_laws). Qed.
+Theorem HamacherSum_laws : snorm_laws HamacherSum.
+Proof. exact (dual_laws _ _ dual_Hamacher HamacherProduct_laws). Qed.
+Theorem Maximum_laws : snorm_laws Maximum.
+Proof. exact (dual_laws _ _ dual_MaxMin Minimum_laws). Qed.
+Theorem NilpotentMaximum_laws : snorm_laws NilpotentMaximum.
+Proof. exact (dual_laws _ _ dual_Nilpotent NilpotentMinimum_laws). Qed.
+
+(* NormalizedSum (a+b) / max 1 (a+b) is BoundedSum min 1 (a+b) (for all reals, in particular on [0,1]) *)
+Lemma NormalizedSum_BoundedSum_all a b : NormalizedSum a b = BoundedSum a b.
+Proof.
+  unfold NormalizedSum, BoundedSum, Rmax, Rmin.
+  destruct (Rle_dec 1 (a + b)) as [H1 | H1].
+  - destruct (Req_dec (a + b) 1) as [E | N]; [rewrite E|]; field. lra.
+  - field.
+Qed.
+Lemma NormalizedSum_BoundedSum a b : unit a -> unit b -> NormalizedSum a b = BoundedSum a b.
+Proof. intros _ _. apply NormalizedSum_BoundedSum_all. Qed.
+Theorem NormalizedSum_laws : snorm_laws NormalizedSum.
+Proof.
+  apply (snorm_laws_ext BoundedSum NormalizedSum); [|exact BoundedSum_laws].
+  intros a b. symmetry. apply NormalizedSum_BoundedSum_all.
+Qed.
+
+(* individual S-norm laws, as projections of the bundles *)
+Section Projections.
+  Variable S : R -> R -> R.
+  Hypothesis L : snorm_laws S.
+  Lemma snorm_range : S_range S. Proof. exact (proj1 L). Qed.
+  Lemma snorm_comm : S_comm S. Proof. exact (proj1 (proj2 L)). Qed.
+  Lemma snorm_mono : S_mono S. Proof. exact (proj1 (proj2 (proj2 L))). Qed.
+  Lemma snorm_assoc : S_assoc S. Proof. exact (proj1 (proj2 (proj2 (proj2 L)))). Qed.
+  Lemma snorm_id0 : S_id0 S. Proof. exact (proj1 (proj2 (proj2 (proj2 (proj2 L))))). Qed.
+  Lemma snorm_ann1 : S_ann1 S. Proof. exact (proj1 (proj2 (proj2 (proj2 (proj2 (proj2 L)))))). Qed.
+  Lemma snorm_ge_max : S_ge_max S. Proof. exact (proj2 (proj2 (proj2 (proj2 (proj2 (proj2 L)))))). Qed.
+End Projections.
+Section ProjectionsT.
+  Variable T : R -> R -> R.
+  Hypothesis L : tnorm_laws T.
+  Lemma tnorm_range : T_range T. Proof. exact (proj1 L). Qed.
+  Lemma tnorm_comm : T_comm T. Proof. exact (proj1 (proj2 L)). Qed.
+  Lemma tnorm_mono : T_mono T. Proof. exact (proj1 (proj2 (proj2 L))). Qed.
+  Lemma tnorm_assoc : T_assoc T. Proof. exact (proj1 (proj2 (proj2 (proj2 L)))). Qed.
+  Lemma tnorm_id1 : T_id1 T. Proof. exact (proj1 (proj2 (proj2 (proj2 (proj2 L))))). Qed.
+  Lemma tnorm_ann0 : T_ann0 T. Proof. exact (proj1 (proj2 (proj2 (proj2 (proj2 (proj2 L)))))). Qed.
+  Lemma tnorm_le_min : T_le_min T. Proof. exact (proj2 (proj2 (proj2 (proj2 (proj2 (proj2 L)))))). Qed.
+End ProjectionsT.
+
+(* direct (non-dual) proofs of the S-norm laws for the piecewise-linear / polynomial S-norms, as a cross-check
+   of the duality route *)
+Lemma AS_range : S_range AlgebraicSum. Proof. unfold S_range. crush. Qed.
+Lemma AS_assoc : S_assoc AlgebraicSum. Proof. unfold S_assoc. crush. Qed.
+Lemma AS_ge_max : S_ge_max AlgebraicSum. Proof. unfold S_ge_max. crush. Qed.
+Lemma BS_assoc : S_assoc BoundedSum. Proof. unfold S_assoc. crush. Qed.
+Lemma DS_assoc : S_assoc DrasticSum. Proof. unfold S_assoc. crush. Qed.
+Lemma Max_assoc : S_assoc Maximum. Proof. unfold S_assoc. crush. Qed.
+Lemma NMax_assoc : S_assoc NilpotentMaximum. Proof. unfold S_assoc. crush. Qed.
+
+(* ---- UnboundedSum: plain addition; not an S-norm on [0,1] (range and annihilator fail), so only: *)
+Lemma UnboundedSum_spec a b : UnboundedSum a b = a + b.
+Proof. reflexivity. Qed.
+Lemma US_comm_all a b : UnboundedSum a b = UnboundedSum b a.
+Proof. unfold UnboundedSum. ring. Qed.
+Lemma US_assoc_all a b c : UnboundedSum (UnboundedSum a b) c = UnboundedSum a (UnboundedSum b c).
+Proof. unfold UnboundedSum. ring. Qed.
+Lemma US_mono_all a b c : b <= c -> UnboundedSum a b <= UnboundedSum a c.
+Proof. unfold UnboundedSum. lra. Qed.
+Lemma US_mono2_all a a' b b' : a <= a' -> b <= b' -> UnboundedSum a b <= UnboundedSum a' b'.
+Proof. unfold UnboundedSum. lra. Qed.
+Lemma US_id0_all a : UnboundedSum a 0 = a.
+Proof. unfold UnboundedSum. ring. Qed.
+Lemma US_comm : S_comm UnboundedSum. Proof. intros a b _ _. apply US_comm_all. Qed.
+Lemma US_assoc : S_assoc UnboundedSum. Proof. intros a b c _ _ _. apply US_assoc_all. Qed.
+Lemma US_mono : S_mono UnboundedSum. Proof. intros a b c _ _ _ H. apply US_mono_all, H. Qed.
+Lemma US_id0 : S_id0 UnboundedSum. Proof. intros a _. apply US_id0_all. Qed.
+Lemma US_ge_max : S_ge_max UnboundedSum. Proof. unfold S_ge_max. crush. Qed.
+Definition usum_laws (S : R -> R -> R) := S_comm S /\ S_mono S /\ S_assoc S /\ S_id0 S.
+Theorem UnboundedSum_laws : usum_laws UnboundedSum.
+Proof. exact (conj US_comm (conj US_mono (conj US_assoc US_id0))). Qed.
+Lemma usum_laws_ext (S S' : R -> R -> R) :
+  (forall a b, S a b = S' a b) -> usum_laws S -> usum_laws S'.
+Proof.
+  intros E (Hc & Hm & Ha & Hi). unfold usum_laws. unlaws. refine (conj _ (conj _ (conj _ _))).
+  - intros a b Ua Ub. rewrite <- !E. apply (Hc a b Ua Ub).
+  - intros a b c Ua Ub Uc Hbc. rewrite <- !E. apply (Hm a b c Ua Ub Uc Hbc).
+  - intros a b c Ua Ub Uc. rewrite <- !E. apply (Ha a b c Ua Ub Uc).
+  - intros a Ua. rewrite <- E. apply (Hi a Ua).
+Qed.
+(* and it really is unbounded: the range law fails *)
+Lemma US_not_range : ~ S_range UnboundedSum.
+Proof. intros H. specialize (H 1 1 unit_1 unit_1). unfold UnboundedSum, unit in H. lra. Qed.
+Lemma US_1_1 : UnboundedSum 1 1 = 2.
+Proof. unfold UnboundedSum. ring. Qed.
